@@ -253,6 +253,8 @@ empty bump(int[] r) { r[0] += 10; r[2] = r[1]; }
 int sum(const int[] r) { int t = 0; for (int i = 0; i < r.length; i += 1) { t += r[i]; } return t; }
 empty swap(int p, int q) { int t = p; p = q; q = t; write(p); write(q); }
 int rdg() { return g; }
+int twice() { int[] q = [3, 4]; q[1] += 1; return q[1]; }
+empty fillc(int[] q) { q[0] += 1; }
 empty dump(int x, int y, const int[] r) {
     write(" x="); write(x); write(" y="); write(y); write(" g="); write(g);
     write(" r="); write(r[0]); write(','); write(r[1]); write(','); write(r[2]);
@@ -282,6 +284,15 @@ S_ATOMS = [
     'for (int i = 0; i < 2; i += 1) { int[] in = [i, x]; r[i] = in[1] + i; }',
     'GR[1] = x; bump(GR);',
     'x = -x;',
+    # a local that shadows a global inside a block that is left early; the global is used afterwards
+    'if (x == 2) { int g = 70; write(g); dump(x, y, r); return; }',
+    'for (int i = 0; i < 2; i += 1) { int g = 50 + i; y += g; if (i == 0) { continue; } break; }',
+    'while (x < 3) { int g = x; x += 1; if (g == 1) { continue; } y += g; if (g == 2) { break; } }',
+    'y += g;',
+    # literals whose elements are all constant, modified and evaluated more than once
+    'for (int i = 0; i < 2; i += 1) { int[] q = [1, 2]; q[0] += 5; y += q[0]; fillc(q); y += q[0]; }',
+    'y = twice() + twice();',
+    'for (int i = 0; i < 2; i += 1) { bool[] bq = [true, false]; if (bq[1]) { y += 100; } bq[1] = true; byte[] yq = [\'a\', \'b\']; yq[0] += 1; y += yq[0]; }',
 ]
 
 S_ARGVS = [['0'], ['2'], ['-5']]
@@ -295,7 +306,7 @@ def family_S(tier):
         seqs += [(i, j, k) for i in range(n) for j in range(n) for k in range(n)]
     else:
         # quick: all pairs, plus triples over a reduced alphabet of the 7 most stateful atoms
-        red = [3, 5, 6, 9, 12, 13, 18]
+        red = [3, 5, 6, 9, 12, 13, 18, 22, 23, 25]
         seqs += [(i, j, k) for i in red for j in red for k in red]
     return [('S', seqs[i:i + S_BATCH]) for i in range(0, len(seqs), S_BATCH)]
 
@@ -315,6 +326,21 @@ def build_S(chunk):
 # ---------------------------------------------------------------------------
 
 F_PROGRAMS = [
+    # overloads of different arity, shorter one first; calls that need a coercion must still respect the argument count
+    ("""
+int area(int s) { return s * s; }
+int area(int w, int h) { return w * h; }
+empty log(string m) { write("tick "); write(m); }
+empty log(const byte[] d, string sep) { write(d); write(sep); }
+empty log() { write("nothing"); }
+int cnt(const int[] a) { return a.length; }
+int cnt(const int[] a, int from) { return a.length - from; }
+empty @is_you(int n, byte b) {
+    int[] m = [1, 2, 3]; byte[] data = ['d', 'a'];
+    writeln(area(b)); writeln(area(b, 7)); writeln(area(n, b)); writeln(area(7)); writeln(area(b + 1, b));
+    log("m"); log(data, ", "); log("s" is byte[], "!"); log(); log(['x', b], "?"); writeln();
+    writeln(cnt(m)); writeln(cnt(m, b)); writeln(cnt([n, b], 1)); writeln(cnt([b]));
+}""", [['3', '6'], ['-2', '255']]),
     # overloads: exact match first, else first declared coercible
     ("""
 empty o(int x) { write("int"); }
